@@ -117,14 +117,35 @@ def main(job_path):
             pre_model.close_pool()
             mon.classes.add("after-another-run-in-the-process")
         phase = "construct"
+        # (harness clock, used only for the one-sided physical bound on the
+        # reported sampling time: nothing nessai counts as sampling can have
+        # happened before this instant of this process)
+        mon.data["t_construct"] = time.time()
         kwargs = M.decode_kwargs(job.get("kwargs", {}), mon)
-        fs = FlowSampler(
-            model,
-            output=job["output"],
-            importance_nested_sampler=bool(job.get("ins")),
-            resume=job.get("resume", True),
-            **kwargs,
-        )
+        extra_kw = {}
+        if job.get("resume_via_data"):
+            # the checkpoint is handed over as an object (`resume_data`, the
+            # way a wrapping package keeps the checkpoint in a file of its
+            # own) instead of being read from the resume file by nessai
+            import pickle
+
+            rf = os.path.join(job["output"], "nested_sampler_resume.pkl")
+            if os.path.exists(rf):
+                with open(rf, "rb") as fh:
+                    extra_kw["resume_data"] = pickle.load(fh)
+                mon.classes.add("resumed-through-resume_data")
+        if job.get("direct"):
+            # the sampler class used directly, without FlowSampler
+            fs = M.DirectRun(model, job, kwargs)
+        else:
+            fs = FlowSampler(
+                model,
+                output=job["output"],
+                importance_nested_sampler=bool(job.get("ins")),
+                resume=job.get("resume", True),
+                **kwargs,
+                **extra_kw,
+            )
         mon.fs = fs
         mon.after_construct(fs)
         phase = "run"
